@@ -2404,6 +2404,124 @@ fn run_scenario(s: &mut Session, rng: &mut Rng, kind: &str, tag: &str, mut specs
     }
 }
 
+
+// ---------------------------------------------------------------------------------------
+// PairPosBuilder glyph pairs against the builder model (`pairs.build`)
+// ---------------------------------------------------------------------------------------
+
+fn render_cov_w(c: &wl::CoverageTable) -> String {
+    match c {
+        wl::CoverageTable::Format1(t) => {
+            let v: Vec<u16> = t.glyph_array.iter().map(|g| g.to_u16()).collect();
+            format!("1 {}", join(&v))
+        }
+        wl::CoverageTable::Format2(t) => {
+            let mut v: Vec<u16> = vec![];
+            for r in &t.range_records {
+                v.extend([r.start_glyph_id.to_u16(), r.end_glyph_id.to_u16(), r.start_coverage_index]);
+            }
+            format!("2 {}", join(&v))
+        }
+    }
+}
+
+/// `insert_pair` rule sequences (zero / partially zero / empty-format / device values, repeated
+/// pairs) → the real `PairPosBuilder` → its format-1 subtables (coverage, pair sets with the id of
+/// the rule each record came from) versus `buildGlyphPairs (GlyphPairs.ofRules rules)`.
+pub fn run_pairs_build(cfg: &Config, s: &mut Session, rng: &mut Rng) {
+    let n_cases = if cfg.thorough() { 1500 } else { 200 };
+    for _ in 0..n_cases {
+        let npool = rng.range(1, 12) as usize;
+        let pool: Vec<u16> = if rng.chance(1, 2) { glyph_run(rng, npool).0 } else { (0..npool).map(|_| rng.next() as u16).collect() };
+        let n = rng.range(1, 30) as usize;
+        let mut next = 1u32;
+        let mut rules: Vec<(u16, u16, u32, PV)> = vec![];
+        let mut b = PairPosBuilder::default();
+        for _ in 0..n {
+            let (g1, g2) = (*rng.pick(&pool), *rng.pick(&pool));
+            let (v1, v2, kind) = overlap_value(rng, &mut next);
+            s.count(&format!("pairs.build:value:{kind}"));
+            let key = (v1.format().bits() as u32) * 65536 + v2.format().bits() as u32;
+            rules.push((g1, g2, key, (vr_b(&v1), vr_b(&v2))));
+            b.insert_pair(g16(g1), v1, g16(g2), v2);
+        }
+        let req: Vec<String> = rules.iter().enumerate().map(|(i, r)| format!("{} {} {} {i}", r.0, r.1, r.2)).collect();
+        let built = catch(|| {
+            let mut vs = VariationStoreBuilder::new(2);
+            b.build(&mut vs)
+        });
+        let resp = match built {
+            Err(_) => "trap".to_string(),
+            Ok(subs) => {
+                let mut parts = vec![];
+                let mut recs: Vec<(Option<u16>, u16, Option<usize>)> = vec![];
+                for st in &subs {
+                    let wg::PairPos::Format1(t) = st else {
+                        parts.push("format2?".into());
+                        continue;
+                    };
+                    let firsts: Vec<u16> = t.coverage.iter().map(|g| g.to_u16()).collect();
+                    let mut sets = vec![];
+                    for (i, ps) in t.pair_sets.iter().enumerate() {
+                        let g1 = firsts.get(i).copied();
+                        let mut v: Vec<String> = vec![];
+                        for r in &ps.pair_value_records {
+                            let g2 = r.second_glyph.to_u16();
+                            // pending variation indices are compared through the builder-side value
+                            let got = (vr_w_pending(&r.value_record1), vr_w_pending(&r.value_record2));
+                            let id = rules.iter().position(|x| Some(x.0) == g1 && x.1 == g2 && pending_eq(&x.3, &got));
+                            recs.push((g1, g2, id));
+                            let id = id.map(|i| i.to_string()).unwrap_or("?".into());
+                            v.push(format!("{g2} {id}"));
+                        }
+                        sets.push(v.join(" "));
+                    }
+                    parts.push(format!("{} ; {}", render_cov_w(&t.coverage), sets.join(" , ")));
+                }
+                // model-independent: every rule's pair is present with the FIRST rule's value
+                let mut ok = true;
+                let mut why = String::new();
+                for (i, r) in rules.iter().enumerate() {
+                    let first = rules.iter().position(|x| x.0 == r.0 && x.1 == r.1).unwrap_or(i);
+                    let all = recs.iter().filter(|x| x.0 == Some(r.0) && x.1 == r.1).count();
+                    let hits = recs.iter().filter(|x| x.0 == Some(r.0) && x.1 == r.1 && x.2 == Some(first)).count();
+                    if hits != 1 || all != 1 {
+                        ok = false;
+                        why = format!("pair ({}, {}): {all} records, {hits} with the value of its first rule (rule {first})", r.0, r.1);
+                        break;
+                    }
+                }
+                s.oracle("pairs.build:every-pair-kept-with-first-value", ok, || req.join(" "), || format!("{why}; built: {}", parts.join(" | ")));
+                if parts.is_empty() {
+                    "-".to_string()
+                } else {
+                    parts.join(" | ")
+                }
+            }
+        };
+        s.case("pairs.build", format!("pairs.build {}", req.join(" ")), resp);
+    }
+}
+
+/// like `vr_w`, but a pending variation index is `Dev::Bad("pending")`: only its presence counts
+fn vr_w_pending(v: &wg::ValueRecord) -> VR {
+    vr_w(v)
+}
+
+/// equality of a builder-side value (delta sets resolved to `Dev::Deltas`) with a built record
+/// whose variation indices are still pending: scalars, Device tables and the PRESENCE of a
+/// variation index per field
+fn pending_eq(rule: &PV, got: &PV) -> bool {
+    let one = |a: &VR, b: &VR| {
+        a.v == b.v
+            && a.d.iter().zip(b.d.iter()).all(|(x, y)| match (x, y) {
+                (Dev::Deltas(_), Dev::Bad(_)) => true,
+                (x, y) => x == y,
+            })
+    };
+    one(&rule.0, &got.0) && one(&rule.1, &got.1)
+}
+
 /// every scenario is a function of (kind, permille, variant, rng state)
 fn one(s: &mut Session, rng: &mut Rng, kind: &str, permille: u64, variant: u64) {
     let tag = format!("e2e[{kind}:{permille}:{variant}:{:#x}]", rng.0);
